@@ -19,9 +19,12 @@ import (
 	"sync/atomic"
 	"time"
 
+	pkgerrors "github.com/pkg/errors"
 	"github.com/prometheus/prometheus/model/labels"
 	"github.com/prometheus/prometheus/tsdb/chunkenc"
 	"google.golang.org/grpc"
+	"google.golang.org/grpc/codes"
+	"google.golang.org/grpc/status"
 
 	"github.com/thanos-io/thanos/pkg/info/infopb"
 	"github.com/thanos-io/thanos/pkg/store/labelpb"
@@ -185,12 +188,42 @@ type vfc03Client struct {
 
 	FaultKind  int
 	FaultAfter int
+	ErrShape   int   // index into vfc03ErrShapes: what the injected open / Recv error looks like
 	HonourCtx  bool  // Recv returns ctx.Err() once the stream context is done (as gRPC does)
 	DelaySeed  int64 // 0: no delays
 	Trace      *vfc03Trace
+	// RecvDelay[i] is slept (ignoring the stream context) before frame i is returned; index len(frames) delays the EOF.
+	RecvDelay []time.Duration
 
-	calls    atomic.Int64
-	failures atomic.Int64 // streams (or opens) of this client that ended with a non-EOF error
+	calls       atomic.Int64
+	failures    atomic.Int64 // streams (or opens) of this client that ended with a non-EOF error of any origin
+	ctxFailures atomic.Int64 // of those: the fake only relayed that the proxy had cancelled the stream context (HonourCtx)
+	maxRecvNs   atomic.Int64 // longest single Recv call, monotonic clock
+}
+
+// vfc03ErrShapes are the shapes a stream failure can have. Only the value io.EOF itself means "clean end of stream".
+var vfc03ErrShapes = []string{"plain", "wrap-eof", "fmt-w-eof", "unexpected-eof", "grpc-unavailable", "grpc-deadline", "grpc-canceled", "ctx-canceled", "ctx-deadline"}
+
+func vfc03MakeErr(shape int, msg string) error {
+	switch vfc03ErrShapes[shape%len(vfc03ErrShapes)] {
+	case "wrap-eof":
+		return pkgerrors.Wrap(io.EOF, msg+": stream truncated")
+	case "fmt-w-eof":
+		return fmt.Errorf("%s: %w", msg, io.EOF)
+	case "unexpected-eof":
+		return io.ErrUnexpectedEOF
+	case "grpc-unavailable":
+		return status.Error(codes.Unavailable, msg+": transport is closing: EOF")
+	case "grpc-deadline":
+		return status.Error(codes.DeadlineExceeded, msg)
+	case "grpc-canceled":
+		return status.Error(codes.Canceled, msg)
+	case "ctx-canceled":
+		return context.Canceled
+	case "ctx-deadline":
+		return context.DeadlineExceeded
+	}
+	return errors.New(msg)
 }
 
 func (c *vfc03Client) LabelSets() []labels.Labels             { return c.Lsets }
@@ -214,7 +247,7 @@ func (c *vfc03Client) Series(ctx context.Context, req *storepb.SeriesRequest, _ 
 	n := c.calls.Add(1)
 	if c.FaultKind == vfc03FaultOpen {
 		c.failures.Add(1)
-		return nil, fmt.Errorf("vf injected open error at %s", c.Name)
+		return nil, vfc03MakeErr(c.ErrShape, fmt.Sprintf("vf injected open error at %s", c.Name))
 	}
 	st := &vfc03Stream{c: c, ctx: ctx, frames: c.Frames(req)}
 	if c.DelaySeed != 0 {
@@ -242,6 +275,16 @@ func (s *vfc03Stream) fail(err error) (*storepb.SeriesResponse, error) {
 }
 
 func (s *vfc03Stream) Recv() (*storepb.SeriesResponse, error) {
+	start := time.Now()
+	defer func() {
+		d := int64(time.Since(start))
+		for {
+			cur := s.c.maxRecvNs.Load()
+			if d <= cur || s.c.maxRecvNs.CompareAndSwap(cur, d) {
+				break
+			}
+		}
+	}()
 	if s.rng != nil {
 		// Delays at the client boundary, where the real system also suspends.
 		switch s.rng.Intn(8) {
@@ -252,14 +295,20 @@ func (s *vfc03Stream) Recv() (*storepb.SeriesResponse, error) {
 		}
 	}
 	if s.c.HonourCtx && s.ctx.Err() != nil {
+		if !s.failed {
+			s.c.ctxFailures.Add(1)
+		}
 		return s.fail(s.ctx.Err())
 	}
 	if s.c.FaultKind == vfc03FaultRecv && s.i >= s.c.FaultAfter {
-		return s.fail(fmt.Errorf("vf injected recv error at %s after %d frames", s.c.Name, s.i))
+		return s.fail(vfc03MakeErr(s.c.ErrShape, fmt.Sprintf("vf injected recv error at %s after %d frames", s.c.Name, s.i)))
 	}
 	if s.c.FaultKind == vfc03FaultBlock && s.i >= s.c.FaultAfter {
 		<-s.ctx.Done()
 		return s.fail(s.ctx.Err())
+	}
+	if s.i < len(s.c.RecvDelay) && s.c.RecvDelay[s.i] > 0 {
+		time.Sleep(s.c.RecvDelay[s.i])
 	}
 	if s.i >= len(s.frames) {
 		return nil, io.EOF
